@@ -18,14 +18,14 @@
 /// logic.
 
 #[test]
-fn kani_concrete_playback_c12_key_plain_3_8364316857353895518() {
+fn kani_concrete_playback_c12_key_plain_3_14911166353111975896() {
     let concrete_vals: Vec<Vec<u8>> = vec![
-        // 73
-        vec![73],
-        // 110
-        vec![110],
-        // 102
-        vec![102],
+        // 95
+        vec![95],
+        // 54
+        vec![54],
+        // 95
+        vec![95],
     ];
     kani::concrete_playback_run(concrete_vals, c12_key_plain_3);
 }
